@@ -1,3 +1,4 @@
+import copy
 import numpy as np
 from . import Demes, Inference, DemesUtil
 
@@ -123,18 +124,21 @@ def output(Nref=None, deme_mapping=None, generation_time=None):
             else:
                 younger.deme_ids = older.deme_ids
 
-    # Substitute deme names
+    # Substitute deme names (on copies of the recorded events, so that a later
+    # call without deme_mapping still sees the original names)
+    events = cache
     if deme_mapping is not None:
         map = {}
         for newname, oldnames in deme_mapping.items():
             for oldname in oldnames:
                 map[oldname] = newname
-        for e in cache:
+        events = [copy.copy(e) for e in cache]
+        for e in events:
             e.deme_ids = [map.get(d, d) for d in e.deme_ids]
 
     # Collect all demes in the history, in order from oldest to newest.
     all_demes = []
-    for e in cache:
+    for e in events:
         for p in e.deme_ids:
             if p not in all_demes:
                 all_demes.append(p)
@@ -152,7 +156,7 @@ def output(Nref=None, deme_mapping=None, generation_time=None):
     for deme in all_demes:
         epochs = []
         start_time, ancestors, proportions = None, None, None
-        for ii, e in enumerate(cache):
+        for ii, e in enumerate(events):
             if deme not in e.deme_ids:
                 continue
             # Index of this deme in this events's deme_ids list
@@ -170,7 +174,7 @@ def output(Nref=None, deme_mapping=None, generation_time=None):
                     epochs[-1]['start_size'] *= Nref
                     if isinstance(e, IntegrationNonConst):
                         epochs[-1]['end_size'] *= Nref
-                if ii > 0 and ancestors is None and deme not in cache[ii-1].deme_ids:
+                if ii > 0 and ancestors is None and deme not in events[ii-1].deme_ids:
                     # If demes is new due to Integration
                     start_time = e.end_time + e.duration
                     if Nref is not None:
@@ -178,10 +182,10 @@ def output(Nref=None, deme_mapping=None, generation_time=None):
                         if generation_time is not None:
                             start_time *= generation_time
                     d_ii = e.deme_ids.index(deme)
-                    ancestors = [cache[ii-1].deme_ids[d_ii]]
+                    ancestors = [events[ii-1].deme_ids[d_ii]]
                     proportions = [1]
             if isinstance(e, Split): 
-                prev_e = cache[ii-1]
+                prev_e = events[ii-1]
                 if deme not in prev_e.deme_ids: # If new deme
                     start_time = e.end_time
                     if Nref is not None:
@@ -226,7 +230,7 @@ def output(Nref=None, deme_mapping=None, generation_time=None):
         b.add_deme(deme, epochs=epochs, start_time=start_time, ancestors=ancestors, proportions=proportions)
 
     all_migs = []
-    for e in cache:
+    for e in events:
         if isinstance(e, Integration):
             start_time = e.end_time + e.duration
             m_ii = 0
@@ -259,7 +263,7 @@ def output(Nref=None, deme_mapping=None, generation_time=None):
         b.add_migration(**m)
 
     # Add pulses of migration
-    for e in cache:
+    for e in events:
         if isinstance(e, Pulse) and len(e.sources) > 0:
             sources = [e.deme_ids[ii-1] for ii in e.sources]
             dest = e.deme_ids[e.dest-1]
